@@ -13,9 +13,10 @@ def small_trees(maxlen):
     return G.enum_balanced(maxlen, starts=("S1", "S2"), toks=TOKS_NAV)
 
 
-def reach_forward(path):
-    """program (list of ops) that reaches `path` from the root by forward iteration; returns (ops, register of target)"""
-    ops, reg = [], 0
+def reach_forward(path, pre=()):
+    """program (list of ops) that reaches `path` from the root by forward iteration; returns (ops, register of target);
+    `pre`: operations to run first (each operation's result occupies one register)"""
+    ops, reg = list(pre), 0
     for i in path:
         ops.append("cht:%d:%d" % (reg, i))
         reg = len(ops)
@@ -56,8 +57,8 @@ def routes_to(t, path):
     return progs
 
 
-def all_ops_from(t, path):
-    base, reg = reach_forward(path)
+def all_ops_from(t, path, pre=()):
+    base, reg = reach_forward(path, pre)
     ops = list(base)
     names = NODE_OPS if t.is_node(path) else TOKEN_OPS
     for n in names:
